@@ -92,6 +92,13 @@ def run(ctx):
         return finish(ctx, trusted=TRUSTED, rule="surfaces program did not build", extra={"verdict_counts": stats})
     nprobe = 2 if not ctx.thorough() else 6
     probes = [rand_vec(ctx.rng, wiring.NPROBE, "generic" if i % 2 == 0 else "normalised") for i in range(nprobe)]
+    probes.append(rand_vec(ctx.rng, wiring.NPROBE, "mixed"))      # amplitudes of order 1 next to amplitudes of order 1e-9: a surface is linear, nothing is "negligible"
+    # ... and a state whose population on the probes' control qubits (4 and 5) is a 1e-9 leakage: a controlled surface still acts on it
+    leak = [bits2float(x) for x in rand_vec(ctx.rng, wiring.NPROBE, "generic")]
+    for i in range(1 << wiring.NPROBE):
+        if (i >> 4) & 3: leak[2 * i] *= 1e-9; leak[2 * i + 1] *= 1e-9
+    probes.append([float2bits(x) for x in leak])
+    nprobe += 2
     rc, lines, err = run_surfaces(probes)
     if rc != 0 or not lines or "oracles" not in lines[0]:
         ctx.violations.append(("the program that calls every surface on valid, distinct qubits crashed (a surface panicked): %s" % err, {"stderr": err}))
